@@ -54,6 +54,9 @@ type Family struct {
 	Name     string
 	Outcomes []int
 	PerJob   [][]int
+	Hunt     string
+	Split    bool // one cube per outcome vector (case split across cores)
+	JobCtx   bool
 	MaxGoex  int
 	PreCanc  bool
 	Timer    bool
@@ -71,6 +74,7 @@ var (
 	FamHang      = Family{Name: "hang", Outcomes: []int{OutOK, OutHang}, Timer: true}
 	FamErrCtx    = Family{Name: "errctx", Outcomes: []int{OutOK, OutErr, OutErrCanceled}}
 	FamEmit      = Family{Name: "emit", Outcomes: []int{OutOK, OutErr}, Emitter: true, Ticks: 1}
+	FamJobCtx    = Family{Name: "jobctx", Outcomes: []int{OutOK, OutErr}, JobCtx: true}
 	FamEmit2     = Family{Name: "emit2", Outcomes: []int{OutOK, OutErr}, Emitter: true, Ticks: 2}
 )
 
@@ -80,8 +84,34 @@ func mkCubes(prefix string, shapes [][][]int, Ns []int, modes []bool, fams []Fam
 		for _, n := range Ns {
 			for _, m := range modes {
 				for _, f := range fams {
-					c := &Cube{Deps: sh, N: n, Continue: m, Outcomes: f.Outcomes, PerJob: f.PerJob, MaxGoex: f.MaxGoex, PreCanc: f.PreCanc, Timer: f.Timer, Emitter: f.Emitter, Ticks: f.Ticks}
-					out = append(out, c)
+					c := &Cube{Deps: sh, N: n, Continue: m, Outcomes: f.Outcomes, PerJob: f.PerJob, Hunt: f.Hunt, JobCtx: f.JobCtx, MaxGoex: f.MaxGoex, PreCanc: f.PreCanc, Timer: f.Timer, Emitter: f.Emitter, Ticks: f.Ticks}
+					if !f.Split {
+						out = append(out, c)
+						continue
+					}
+					// case split: one cube per outcome vector
+					vecs := [][]int{{}}
+					for j := range sh {
+						set := f.Outcomes
+						if f.PerJob != nil {
+							set = f.PerJob[j]
+						}
+						var nv [][]int
+						for _, v := range vecs {
+							for _, o := range set {
+								nv = append(nv, append(append([]int(nil), v...), o))
+							}
+						}
+						vecs = nv
+					}
+					for _, v := range vecs {
+						cc := *c
+						cc.PerJob = nil
+						for _, o := range v {
+							cc.PerJob = append(cc.PerJob, []int{o})
+						}
+						out = append(out, &cc)
+					}
 				}
 			}
 		}
@@ -121,21 +151,28 @@ func L1Plan(prop, tier string) []*Cube {
 	add := func(prefix string, shapes [][][]int, ns []int, modes []bool, fams ...Family) {
 		cubes = append(cubes, mkCubes(prop+prefix, shapes, ns, modes, fams)...)
 	}
-	j3 := dagShapes(3, 2, true)
+	// J=3 shapes explored in the thorough tier: independent, skip-then-independent,
+	// independent-then-dependent, fan-out, chain, join
+	j3 := [][][]int{{{}, {}, {}}, {{}, {0}, {}}, {{}, {}, {0}}, {{}, {0}, {0}}, {{}, {0}, {1}}, {{}, {}, {0, 1}}}
+	j3wide := [][][]int{{{}, {}, {}}, {{}, {}, {0, 1}}}
+	N2 := []int{2}
+	_ = j3wide
+	_ = N2
 	switch prop {
 	case "C01":
 		add("a", small, N12, both, FamPlain)
 		add("g", append(j1, chain2...), N12, both, FamGoexit)
 		// transitive chain with a failing head: late enqueue behind an invalidated job
-		add("c", chain3, N1, both, Family{Name: "chainfail", Outcomes: []int{OutOK, OutErr}, PerJob: [][]int{{OutErr}, {OutOK}, {OutOK, OutErr}}})
+		add("c", chain3, N1, both, Family{Name: "chainfail", Outcomes: []int{OutOK, OutErr}, PerJob: [][]int{{OutErr}, {OutOK}, {OutOK, OutErr}}, Hunt: "job started twice or before"})
 		if !q {
-			add("b", j3, N12, both, FamPlain)
+			add("b", j3, N1, both, FamPlain)
+			add("d", j3wide, N2, both, FamPlain)
 			add("h", small, N12, both, FamGoexit)
 		}
 	case "C03":
 		add("a", small, N12, both, FamPlain)
 		// capacity must survive a skipped job: A fails, B (after A) is skipped, C must still be dispatched
-		add("c", failSkipThen, N1, coe, Family{Name: "failskip", Outcomes: []int{OutOK, OutErr}, PerJob: [][]int{{OutErr}, {OutOK}, {OutOK}}})
+		add("c", failSkipThen, N1, coe, Family{Name: "failskip", Outcomes: []int{OutOK, OutErr}, PerJob: [][]int{{OutErr}, {OutOK}, {OutOK}}, Hunt: "capacity lost"})
 		add("g", append(j1, chain2...), N12, ff, FamGoexit)
 		if !q {
 			add("b", j3, []int{2}, both, FamPlain)
@@ -144,14 +181,20 @@ func L1Plan(prop, tier string) []*Cube {
 		}
 	case "C04":
 		add("a", small, N12, both, FamPlain)
+		if !q {
+			add("b", j3, N1, both, FamPlain)
+			add("h", small, N12, both, FamGoexit)
+		}
 	case "C05":
 		add("a", small, N12, both, FamPlain)
-		add("c", append(chain3, failSkipThen...), N1, coe, Family{Name: "headfails", Outcomes: []int{OutOK, OutErr}, PerJob: [][]int{{OutErr}, {OutOK}, {OutOK}}})
+		add("c", append(chain3, failSkipThen...), N1, coe, Family{Name: "headfails", Outcomes: []int{OutOK, OutErr}, PerJob: [][]int{{OutErr}, {OutOK}, {OutOK}}, Hunt: "deadlock"})
 		add("g", append(j1, chain2...), N12, ff, FamGoexit)
 		add("p", append(j1, chain2...), N1, both, FamPre, FamJobCancel)
+		add("j", append(j1, chain2...), N1, both, FamJobCtx) // jobs enqueued with their own (possibly cancelled) context, Wait with a live one
 		add("e", j1, N1, ff, FamEmit)
 		if !q {
-			add("b", j3, N12, both, FamPlain)
+			add("b", j3, N1, both, FamPlain)
+			add("d", j3wide, N2, both, FamPlain)
 			add("h", small, N12, both, FamGoexit, FamPre, FamJobCancel, FamTimer)
 			add("f", small, N12, both, FamEmit)
 		}
@@ -159,46 +202,65 @@ func L1Plan(prop, tier string) []*Cube {
 		add("a", small, N12, both, FamPlain)
 		add("g", append(j1, chain2...), N12, ff, FamGoexit)
 		add("p", append(j1, chain2...), N1, both, FamPre, FamJobCancel)
+		add("j", append(j1, chain2...), N1, both, FamJobCtx)
 		add("e", j1, N1, ff, FamEmit)
 		if !q {
 			add("t", [][][]int{{{}, {}, {}, {}}}, []int{2}, ff, FamPlain)
-			add("b", j3, N12, both, FamPlain)
+			add("b", j3, N1, both, FamPlain)
+			add("d", j3wide, N2, both, FamPlain)
 			add("h", small, N12, both, FamGoexit, FamPre, FamJobCancel, FamTimer)
 		}
 	case "C07":
 		add("a", small, N12, ff, FamPlain)
-		add("c", chain3, N1, ff, Family{Name: "chainmid", Outcomes: []int{OutOK, OutErr}, PerJob: [][]int{{OutOK}, {OutOK, OutErr}, {OutOK}}})
+		add("c", chain3, N1, ff, Family{Name: "chainmid", Outcomes: []int{OutOK, OutErr}, PerJob: [][]int{{OutOK}, {OutOK, OutErr}, {OutOK}}, Hunt: "nil result although a job did not"})
 		add("g", append(j1, chain2...), N12, ff, FamGoexit)
 		add("p", append(j1, chain2...), N1, ff, FamPre, FamJobCancel)
 		add("x", append(j1, chain2...), N1, ff, FamErrCtx) // a task's own error is a context error while the directive's context is live
 		if !q {
-			add("b", j3, N12, ff, FamPlain)
+			add("b", j3, N1, ff, FamPlain)
+			add("d", j3wide, N2, ff, FamPlain)
 			add("h", small, N12, ff, FamGoexit, FamPre, FamJobCancel, FamTimer)
 		}
 	case "C08":
 		add("a", small, N12, coe, FamPlain)
-		add("c", chain3, N1, coe, Family{Name: "chainfail", Outcomes: []int{OutOK, OutErr}, PerJob: [][]int{{OutErr}, {OutOK}, {OutOK, OutErr}}})
+		add("c", chain3, N1, coe, Family{Name: "chainfail", Outcomes: []int{OutOK, OutErr}, PerJob: [][]int{{OutErr}, {OutOK}, {OutOK, OutErr}}, Hunt: "job ran iff"})
 		add("g", append(j1, chain2...), N12, coe, FamGoexit)
 		add("p", append(j1, chain2...), N1, coe, FamPre, FamJobCancel)
 		if !q {
-			add("b", j3, N12, coe, FamPlain)
+			add("b", j3, N1, coe, FamPlain)
+			add("d", j3wide, N2, coe, FamPlain)
 			add("h", small, N12, coe, FamGoexit, FamPre, FamJobCancel, FamTimer)
 		}
 	case "C09":
 		add("p", small, N1, both, FamPre, FamJobCancel)
 		// a dependent becomes ready, waits for the only worker, and the context is cancelled by the job occupying it
-		add("c", indepThenDep, N1, both, Family{Name: "jobcancel-mid", Outcomes: []int{OutOK, OutCancel}, PerJob: [][]int{{OutOK}, {OutCancel}, {OutOK}}})
-		add("t", append(j1, chain2...), N1, both, FamTimer, FamHang)
+		add("c", indepThenDep, N1, ff, Family{Name: "jobcancel-mid", Outcomes: []int{OutOK, OutCancel}, PerJob: [][]int{{OutOK}, {OutCancel}, {OutOK}}, Hunt: "context was done"})
+		add("j", append(j1, chain2...), N1, both, FamJobCtx) // per-job context: done -> the body never starts; live -> the body receives exactly that context
+		add("t", j1, N1, both, FamTimer, FamHang)            // timer/hang at J=2 take 8-27 min per cube: thorough only
 		if !q {
 			add("q", small, []int{2}, both, FamPre, FamJobCancel, FamTimer, FamHang)
+			add("u", chain2, N1, both, FamTimer, FamHang)
 			add("b", j3, N1, both, FamJobCancel)
 		}
 	case "C12":
-		add("a", small, N12, both, FamPlain)
+		indep2 := [][][]int{{{}, {}}}
+		var rest [][][]int
+		for _, sh := range small {
+			if !(len(sh) == 2 && len(sh[1]) == 0) {
+				rest = append(rest, sh)
+			}
+		}
+		add("a", rest, N12, both, FamPlain)
+		add("i", indep2, N1, both, FamPlain)
+		// two workers truly in parallel: the slowest cube (20 min), split by outcome vector
+		split := FamPlain
+		split.Split = true
+		add("s", indep2, N2, both, split)
 		add("g", append(j1, chain2...), N12, ff, FamGoexit)
 		add("p", chain2, N1, both, FamJobCancel)
 		if !q {
-			add("b", j3, N12, both, FamPlain)
+			add("b", j3, N1, both, FamPlain)
+			add("d", j3wide, N2, both, FamPlain)
 		}
 		for _, c := range cubes {
 			c.Race = true
@@ -206,11 +268,23 @@ func L1Plan(prop, tier string) []*Cube {
 	case "C19":
 		add("a", small, N1, both, FamEmit)
 		add("n", j1, []int{2}, ff, FamEmit)
+		// invalidated jobs at the front of the ready list (full unsat proof > 20 min: bug-hunting in quick)
+		add("f", fanOut3, N1, coe, Family{Name: "emit-headfails", Outcomes: []int{OutOK, OutErr}, PerJob: [][]int{{OutErr}, {OutOK}, {OutOK}}, Emitter: true, Ticks: 1, Hunt: "inconsistent state report"})
 		if !q {
-			// invalidated jobs at the front of the ready list (unsat proof > 20 min: thorough only)
-			add("f", fanOut3, N1, coe, Family{Name: "emit-headfails", Outcomes: []int{OutOK, OutErr}, PerJob: [][]int{{OutErr}, {OutOK}, {OutOK}}, Emitter: true, Ticks: 1})
 			add("b", small, N12, both, FamEmit2)
 			add("c", dagShapes(3, 1, true), N1, ff, FamEmit)
+		}
+	}
+	if !q {
+		// cubes that are not in the quick plan lie beyond the registered bound
+		inQuick := map[string]bool{}
+		for _, c := range L1Plan(prop, "quick") {
+			inQuick[c.String()] = true
+		}
+		for _, c := range cubes {
+			if !inQuick[c.String()] || c.Hunt != "" {
+				c.Extra = true
+			}
 		}
 	}
 	// cube ids must be valid Go identifiers
@@ -267,24 +341,45 @@ type CubeResult struct {
 	Notes       []string    `json:"notes,omitempty"`
 	Discharged  int         `json:"discharged"`
 	Obligations int         `json:"n_obligations"`
+	Hunt        string      `json:"bug_hunting_only,omitempty"`
+	Beyond      string      `json:"undecided_cube_outside_the_claim,omitempty"`
+	Undecided   int         `json:"undecided_within_budget,omitempty"`
 }
 
 type Violation struct {
-	Prop     string            `json:"prop"`
-	Name     string            `json:"name"`
-	Cube     *Cube             `json:"cube"`
-	Schedule []SchedStep       `json:"schedule"`
-	Outcomes []int             `json:"outcomes"`
-	PreCanc  bool              `json:"pre_cancel"`
-	Timer    bool              `json:"timer_armed"`
-	Sig      string            `json:"signature"`
-	Oracle   string            `json:"oracle,omitempty"` // property whose replay oracle observes this violation
-	Extra    map[string]string `json:"extra,omitempty"`
+	Prop            string            `json:"prop"`
+	Name            string            `json:"name"`
+	Cube            *Cube             `json:"cube"`
+	Schedule        []SchedStep       `json:"schedule"`
+	Outcomes        []int             `json:"outcomes"`
+	PreCanc         bool              `json:"pre_cancel"`
+	Timer           bool              `json:"timer_armed"`
+	JobCtxCancelled bool              `json:"job_context_cancelled,omitempty"`
+	Sig             string            `json:"signature"`
+	Oracle          string            `json:"oracle,omitempty"` // property whose replay oracle observes this violation
+	Extra           map[string]string `json:"extra,omitempty"`
 }
+
+// quick-tier detection: the quick tier uses a 600 s solver limit
+func tierOf(timeoutMs int) string {
+	if timeoutMs <= 600000 {
+		return "quick"
+	}
+	return "thorough"
+}
+
+func q(tier string) bool { return tier == "quick" }
 
 // RunL1Cube builds and decides one cube for one property.
 func RunL1Cube(P *Program, c *Cube, prop string, solver string, timeoutMs int) (res *CubeResult) {
 	res = &CubeResult{Cube: c.String(), ID: c.ID}
+	defer func() {
+		if c.Extra && res.Inconcl && len(res.Violations) == 0 && !res.Vacuous {
+			res.Inconcl = false
+			res.Beyond = "not decided within the time limit (" + res.Error + "); this cube lies beyond the registered bound and is not part of the claim"
+			res.Error = ""
+		}
+	}()
 	defer func() {
 		if r := recover(); r != nil {
 			if ee, ok := r.(EngineError); ok {
@@ -295,6 +390,9 @@ func RunL1Cube(P *Program, c *Cube, prop string, solver string, timeoutMs int) (
 			panic(r)
 		}
 	}()
+	if c.Extra && timeoutMs > 1500000 {
+		timeoutMs = 1500000
+	}
 	t0 := time.Now()
 	l := NewL1(P, c)
 	l.Build()
@@ -338,7 +436,54 @@ func RunL1Cube(P *Program, c *Cube, prop string, solver string, timeoutMs int) (
 	}
 	B := l.E.B
 	base := l.S.Constraints
+	if c.Hunt != "" && q(tierOf(timeoutMs)) {
+		res.Hunt = "only the obligation matching '" + c.Hunt + "' is asked, 300 s budget; the full proof of this cube is in the thorough tier"
+		hs, err := NewSolver(l.E.B, solver, 300000)
+		if err != nil {
+			res.Error = err.Error()
+			res.Inconcl = true
+			return
+		}
+		defer hs.Close()
+		for _, ob := range obs {
+			if ob.WantSat || !strings.Contains(ob.Name, c.Hunt) {
+				continue
+			}
+			res.Obligations++
+			t1 := time.Now()
+			v, m, err := hs.Check(append([]*Term{ob.Assert}, base...), l.ModelTerms())
+			res.SolveS += time.Since(t1).Seconds()
+			res.Queries++
+			if err != nil {
+				v = Unknown
+			}
+			or := ObResult{Prop: ob.Prop, Name: ob.Name, Verdict: v.String(), Seconds: time.Since(t1).Seconds(), Via: "bug-hunting query"}
+			switch v {
+			case Unsat:
+				res.Discharged++
+			case Unknown:
+				or.Verdict = "undecided within 300 s (not part of the claim)"
+				res.Undecided++
+			case Sat:
+				ev := func(t *Term) uint64 { return m[t.ID] }
+				viol := Violation{Prop: ob.Prop, Name: ob.Name, Cube: c, Schedule: l.Decode(ev), Oracle: ob.Oracle}
+				for _, o := range l.Out {
+					viol.Outcomes = append(viol.Outcomes, int(m[o.ID]))
+				}
+				viol.Sig = l.Signature(ob, viol)
+				res.Violations = append(res.Violations, viol)
+			}
+			res.Obs = append(res.Obs, or)
+		}
+		res.NonTrivial = true
+		return
+	}
 	check := func(t *Term, want []*Term) (Verdict, map[int]uint64) {
+		if c.Extra && res.SolveS > 2700 {
+			// cubes beyond the registered bound get 45 min of solver time in total
+			res.Error = "solver budget of the cube (45 min) exhausted"
+			return Unknown, nil
+		}
 		t1 := time.Now()
 		v, m, err := sv.Check(append([]*Term{t}, base...), want)
 		res.SolveS += time.Since(t1).Seconds()
@@ -380,6 +525,9 @@ func RunL1Cube(P *Program, c *Cube, prop string, solver string, timeoutMs int) (
 		}
 		if c.Timer {
 			viol.Timer = m[l.timerArmed.ID] != 0
+		}
+		if c.JobCtx && l.jobCtxCancelled != nil {
+			viol.JobCtxCancelled = m[l.jobCtxCancelled.ID] != 0
 		}
 		viol.Sig = l.Signature(ob, viol)
 		res.Violations = append(res.Violations, viol)
@@ -427,6 +575,11 @@ func RunL1Cube(P *Program, c *Cube, prop string, solver string, timeoutMs int) (
 			remaining = nil
 			continue
 		}
+		if v == Unknown && c.Extra && !(phase == 0 && len(c.PerJob) > 0 && len(remaining) > 1) {
+			res.Inconcl = true
+			res.Error = "solver timeout on the combined query"
+			return
+		}
 		if v == Unknown {
 			// fall back to one query per obligation
 			for _, ob := range remaining {
@@ -438,6 +591,10 @@ func RunL1Cube(P *Program, c *Cube, prop string, solver string, timeoutMs int) (
 					res.Discharged++
 				case Unknown:
 					res.Inconcl = true
+					if c.Extra {
+						res.Error = "solver timeout on '" + ob.Name + "'"
+						return
+					}
 				case Sat:
 					recordViolation(ob, m2)
 				}
